@@ -29,6 +29,7 @@ import (
 	"runtime"
 	"runtime/debug"
 	"runtime/metrics"
+	"sort"
 	"strconv"
 	"strings"
 	"sync"
@@ -61,30 +62,32 @@ func envInt(k string, d int64) int64 {
 
 // Report is one oracle firing, written as JSON into $VERIF_FUZZ_REPORT.
 type Report struct {
-	Target   string   `json:"target"`
-	Mode     string   `json:"mode"`
-	Kind     string   `json:"kind"` // panic | alloc | hang
-	Key      string   `json:"key"`
-	Msg      string   `json:"msg"`
-	Stack    string   `json:"stack"`
-	Corpus   string   `json:"corpus"` // the fuzz arguments as a `go test fuzz v1` corpus file
-	InputLen int      `json:"input_len"`
-	Alloc    uint64   `json:"alloc_bytes,omitempty"`
-	Bound    uint64   `json:"alloc_bound,omitempty"`
-	HangS    int      `json:"hang_s,omitempty"`
-	Pid      int      `json:"pid"`
+	Target   string `json:"target"`
+	Mode     string `json:"mode"`
+	Kind     string `json:"kind"` // panic | alloc | hang
+	Key      string `json:"key"`
+	Msg      string `json:"msg"`
+	Stack    string `json:"stack"`
+	Corpus   string `json:"corpus"` // the fuzz arguments as a `go test fuzz v1` corpus file
+	InputLen int    `json:"input_len"`
+	Alloc    uint64 `json:"alloc_bytes,omitempty"`
+	Bound    uint64 `json:"alloc_bound,omitempty"`
+	HangS    int    `json:"hang_s,omitempty"`
+	Pid      int    `json:"pid"`
 }
 
 type modeStats struct {
-	Execs       int64   `json:"execs"`
-	OK          int64   `json:"ok"`      // decode returned a value (no error)
-	Skipped     int64   `json:"skipped"` // input > 64 KiB
-	Panics      int64   `json:"panics"`
-	AllocOver   int64   `json:"alloc_over"`
-	MaxAlloc    uint64  `json:"max_alloc"`
-	MaxAllocLen int     `json:"max_alloc_len"`
-	MaxFrac     float64 `json:"max_frac_of_bound"`
-	MaxPerByte  float64 `json:"max_alloc_per_input_byte"` // for inputs >= 256 bytes
+	Execs        int64   `json:"execs"`
+	OK           int64   `json:"ok"`      // decode returned a value (no error)
+	Skipped      int64   `json:"skipped"` // input > 64 KiB
+	Panics       int64   `json:"panics"`
+	AllocOver    int64   `json:"alloc_over"`
+	AllocUnsited int64   `json:"alloc_over_site_unknown"`
+	MaxAlloc     uint64  `json:"max_alloc"`
+	MaxAllocLen  int     `json:"max_alloc_len"`
+	MaxFrac      float64 `json:"max_frac_of_bound"`
+	MaxPerByte   float64 `json:"max_alloc_per_input_byte"` // for inputs >= 256 bytes
+	lastSite     string
 }
 
 var stats = struct {
@@ -307,7 +310,21 @@ wait:
 	}
 	if delta > bound {
 		st.AllocOver++
-		site, siteBytes, stack := allocSite(fn)
+		// Naming the allocation site repeats the decode under MemProfileRate=1
+		// (slow): done for the first exceedances of a (target, mode) and then for
+		// every 64th; in between the last site found for that mode is reused.
+		site, siteBytes, stack := st.lastSite, int64(0), "(site reused from an earlier exceedance of this mode)"
+		if st.AllocOver <= 3 || st.AllocOver%64 == 0 || site == "" {
+			site, siteBytes, stack = allocSite(fn)
+			if site == "" { // could not be profiled (re-run too slow on a loaded machine): reuse, never invent a key
+				site = st.lastSite
+			}
+			st.lastSite = site
+		}
+		if site == "" {
+			st.AllocUnsited++
+			return // counted; the next exceedance of this mode is profiled again
+		}
 		rep := &Report{Target: target, Mode: mode, Kind: "alloc", Key: fuzzkey.Key(target, "alloc", "", site),
 			Msg:   fmt.Sprintf("TotalAlloc delta %d B for %d input bytes exceeds bound %d B (largest allocation site %s: %d B)", delta, total, bound, site, siteBytes),
 			Stack: stack, Corpus: corpusFile(args), InputLen: total, Alloc: delta, Bound: bound}
@@ -345,13 +362,18 @@ func decodeGoroutine(dump string) string {
 	return ""
 }
 
-// allocSite repeats the decode with every allocation profiled and returns
-// the go-git function responsible for the largest allocated volume.
-func allocSite(fn func() bool) (site string, bytes int64, stack string) {
+// allocSite repeats the decode with allocation profiling at 4 KiB granularity
+// (every allocation that matters for a >64 MiB exceedance is sampled) and
+// returns the go-git function that is responsible for the largest allocated
+// volume, summed over all stacks whose innermost go-git frame it is.
+func allocSite(fn func() bool) (site string, bytes int64, detail string) {
 	old := runtime.MemProfileRate
-	runtime.MemProfileRate = 1
+	runtime.MemProfileRate = 4096
 	defer func() { runtime.MemProfileRate = old }()
 	snap := func() map[[32]uintptr]runtime.MemProfileRecord {
+		// an allocation made in GC cycle C is published after cycle C+2; a third
+		// cycle covers a background cycle that was already running
+		runtime.GC()
 		runtime.GC()
 		runtime.GC()
 		n, _ := runtime.MemProfile(nil, true)
@@ -373,43 +395,57 @@ func allocSite(fn func() bool) (site string, bytes int64, stack string) {
 	go func() { done <- runRecovered(fn) }()
 	select {
 	case <-done:
-	case <-time.After(hangAfter):
-		return "profile-rerun-timeout", 0, ""
+	case <-time.After(10 * hangAfter):
+		return "", 0, "profiled re-run did not return"
 	}
 	after := snap()
-	var best runtime.MemProfileRecord
-	var bestBytes int64
+	bySite := map[string]int64{}
 	for k, r := range after {
 		d := r.AllocBytes - before[k].AllocBytes
-		if d > bestBytes {
-			best, bestBytes = r, d
+		if d <= 0 {
+			continue
 		}
+		var gg, first string
+		frames := runtime.CallersFrames(r.Stack())
+		for {
+			fr, more := frames.Next()
+			if fr.Function != "" {
+				if gg == "" && strings.HasPrefix(fr.Function, fuzzkey.GoGit) {
+					gg = strings.TrimPrefix(fr.Function, fuzzkey.GoGit)
+				}
+				if first == "" && !strings.HasPrefix(fr.Function, "runtime.") && !strings.HasPrefix(fr.Function, "internal/runtime/") {
+					first = fr.Function
+				}
+			}
+			if !more {
+				break
+			}
+		}
+		if gg == "" {
+			gg = first
+		}
+		bySite[gg] += d
 	}
-	if bestBytes == 0 {
-		return "no-site", 0, ""
+	type kv struct {
+		k string
+		v int64
+	}
+	var all []kv
+	for k, v := range bySite {
+		all = append(all, kv{k, v})
+	}
+	sort.Slice(all, func(i, j int) bool { return all[i].v > all[j].v })
+	if len(all) == 0 {
+		return "", 0, "no allocation sampled in the profiled re-run"
 	}
 	var sb strings.Builder
-	frames := runtime.CallersFrames(best.Stack())
-	var first string
-	for {
-		fr, more := frames.Next()
-		if fr.Function != "" {
-			fmt.Fprintf(&sb, "%s\n", fr.Function)
-			if site == "" && strings.HasPrefix(fr.Function, fuzzkey.GoGit) {
-				site = strings.TrimPrefix(fr.Function, fuzzkey.GoGit)
-			}
-			if first == "" && !strings.HasPrefix(fr.Function, "runtime.") {
-				first = fr.Function
-			}
-		}
-		if !more {
+	for i, e := range all {
+		if i >= 6 {
 			break
 		}
+		fmt.Fprintf(&sb, "%s=%dB; ", e.k, e.v)
 	}
-	if site == "" {
-		site = first
-	}
-	return site, bestBytes, sb.String()
+	return all[0].k, all[0].v, sb.String()
 }
 
 // isFuzzWorker reports whether this process is a worker of the fuzz engine.
